@@ -76,8 +76,8 @@ def all_points():
         yield combo
 
 
-def accepted(points):
-    """R: which (placement, combo, traits, entry) does the macro accept"""
+def accepted(points, outcome=None):
+    """R: which (placement, combo, traits, entry) does the macro accept; disagreements with the documented verdict are reported"""
     reqs = []
     for (pl, combo, ts, en) in points:
         t = make_type(pl, combo)
@@ -87,14 +87,28 @@ def accepted(points):
             reqs.append(("derive", "", t.item_text(["#[derive_ex(%s)]" % ", ".join(ts)])))
     res = common.expand_many(reqs)
     acc = []
-    for pt, r in zip(points, res):
+    reported = 0
+    for pt, r, rq in zip(points, res, reqs):
+        did = "accept"
         if "panic" in r or not r.get("parse_ok") or common.compile_errors(r):
-            continue
-        if pt[3] == "attr":
-            item0 = r["items"][0]["text"] if r["items"] else ""
+            did = "reject"
+        elif pt[3] == "attr":
+            item0 = r["items"][0].get("text", "") if r["items"] else ""
             if any(("# [%s" % a) in item0 for a in gen_cmp.CMP_ATTRS):
-                continue
-        acc.append(pt)
+                did = "unrecognised"
+        doc = gen_cmp.doc_verdict(make_type(pt[0], pt[1]), pt[2], pt[3])
+        if outcome is not None and did != doc[0] and not (did == "reject" and doc[0] == "unrecognised") and reported < 6:
+            from . import e3, replay_e3
+            reported += 1
+            case = {"property": PID, "kind": "reject", "mode": rq[0], "attr": rq[1], "item": rq[2], "expected_reject": doc[0] == "reject",
+                    "explain": "documentation verdict %s, macro %s; verdict from the macro's own diagnostics, not from the solver" % (doc, did)}
+            path = e3.write_replay(PID, "acceptance%02d" % reported, case)
+            obs = replay_e3.observe(case)
+            if "unrecognised" in (did, doc[0]) or replay_e3.disagrees(case, obs):
+                outcome.violation("acceptance|%s|%s|%s|%s|doc=%s|macro=%s" % (pt[0], combo_str(pt[1]), "+".join(pt[2]), pt[3], doc[0], did), path,
+                                  "the macro %ss a combination for which the documentation says %s: %s %s" % (did, doc[0], rq[1], " ".join(rq[2].split())[:300]))
+        if did == "accept":
+            acc.append(pt)
     return acc
 
 
@@ -115,7 +129,8 @@ def run(tier):
             pts.append(("struct", c, full, "attr"))
         for c in rnd.sample(combos, 700):
             pts.append((rnd.choice(["struct", "enum"]), c, rnd.choice(SUBSETS), rnd.choice(["attr", "attr", "derive"])))
-    acc = accepted(pts)
+    out = common.Outcome(PID)
+    acc = accepted(pts, out)
     if tier != "thorough":
         head = [p for p in acc if sum(1 for x in p[1] if x) <= 1 and p[2] == SUBSETS[9]]
         rest = [p for p in acc if p not in head]
@@ -123,7 +138,7 @@ def run(tier):
     log("[C02] %d points, %d accepted by the macro" % (len(pts), len(acc)))
     progs = [build("p%05d" % i, *p) for i, p in enumerate(acc)]
     return e1.finish(
-        PID, tier, progs, t0,
+        PID, tier, progs, t0, outcome=out,
         rule="one Kani harness per accepted point of the 7x7x4x4x4 per-field attribute matrix x placement x supertrait-closed derived subset; three symbolic values "
              "(pairs and triples) of the type; model-free laws asserted; non-trivial = at least one helper attribute; distinct by placement|combo|traits|entry",
         bounds="one attributed u8 field plus one plain u8 field (struct field / enum-variant field); every key/by callback expresses the same key (payload >> 1); recorder 16 bytes",
